@@ -319,6 +319,13 @@ class Exec:
             st.assume(f)
         if c.setup:
             c.setup(self, st)
+        # logical (auxiliary) variables: arbitrary values the contract quantifies over universally
+        for lname, lty in c.options.get("logical", {}).items():
+            lf = []
+            st.locals[lname] = fresh(parse_type(lty), lname, (), lf)
+            for f in lf:
+                if not isinstance(f, tuple):
+                    st.assume(f)
         if c.options.get("db"):
             tables = {}
             for tname, rty in c.registry.tables.items():
@@ -352,10 +359,12 @@ class Exec:
                     continue      # the statement exists but no explored path reaches it
                 raise EngineError("%s: ghost hook anchored at %r matches no statement (contract does not resolve)"
                                   % (self.fnname, g.get("after") or g.get("before")))
-        self.canaries = []
+        # vacuity canaries: the entry state (requires) and at least one exit must not be contradictory;
+        # individual infeasible paths are normal (their obligations hold trivially)
+        self.canaries = [Obl("%s:canary-entry" % self.fnname, list(self.pre_state.pc), z3.BoolVal(False), "canary", 0, self.fnname)]
         for s in self.exits:
             self.check_exit(s)
-            self.canaries.append(Obl("%s:canary#%d" % (self.fnname, len(self.canaries)), list(s.pc), z3.BoolVal(False), "canary", 0, self.fnname))
+            self.canaries.append(Obl("%s:canary-exit#%d" % (self.fnname, len(self.canaries)), list(s.pc), z3.BoolVal(False), "canary", 0, self.fnname))
         return self.obls
 
     def check_exit(self, s):
@@ -1157,6 +1166,26 @@ class Exec:
             return a + b
         a, b, k = self._num2(a, b)
         conc = not (is_z3(a) or is_z3(b))
+        if (k == "real" or isinstance(op, ast.Div)) and not conc and getattr(self.ctx, "float_mode", "R") == "uf" \
+                and isinstance(op, (ast.Add, ast.Sub, ast.Mult, ast.Div)):
+            # UF-rounding mode: every floating-point operation is an uninterpreted deterministic function
+            # of its operands (nothing but congruence is known about rounding); integer arithmetic is exact
+            name = {ast.Add: "fadd", ast.Sub: "fsub", ast.Mult: "fmul", ast.Div: "fdiv"}[type(op)]
+            f = self.ctx.uf(name, R, R, R)
+            if isinstance(op, ast.Div):
+                if not st.ghost.get("fdiv_sign"):
+                    # the one fact about rounding used: a quotient of non-zero operands is non-zero and has
+                    # their sign (no underflow at these magnitudes; listed as an assumption)
+                    st.ghost["fdiv_sign"] = True
+                    from .libspec import trusted
+                    trusted("UF-rounding mode: fdiv(x, y) is non-zero with the sign of x / y when x, y are non-zero (no underflow)")
+                    u, v = z3.Real(uid("u")), z3.Real(uid("v"))
+                    BOUND_add = __import__("pyvc.values", fromlist=["BOUND"]).BOUND
+                    BOUND_add.add(u.decl().name()); BOUND_add.add(v.decl().name())
+                    st.pc.append(z3.ForAll([u, v], z3.Implies(z3.And(u != 0, v != 0),
+                                                            z3.And(f(u, v) != 0, (f(u, v) > 0) == ((u > 0) == (v > 0)))), patterns=[f(u, v)]))
+                self.oblige(st, znot(values_equal(b, 0)), "division-by-zero", node)
+            return f(to_z3(as_real(a)), to_z3(as_real(b)))
         if isinstance(op, ast.Add):
             return a + b
         if isinstance(op, ast.Sub):
